@@ -351,6 +351,14 @@ def arith (op : Op) (a b : Src) : Except Err Src :=
   if b.timestamps ≠ a.timestamps then .error .runtime
   else .ok (a.withData (List.zipWith op.apply a.data b.data))
 
+/-- `-a` (`Slice.__neg__`): same timestamps, negated data. -/
+def neg (a : Src) : Src := a.withData (a.data.map fun v => -v)
+
+/-- `a <op> x` (`reversed = false`) and `x <op> a` (`reversed = true`, `__radd__`, `__rsub__`, `__rmul__`,
+    `__rtruediv__`) for a scalar `x`: `_unpack_other` hands a scalar through unchanged, numpy broadcasts it. -/
+def arithScalar (op : Op) (a : Src) (x : Rat) (reversed : Bool) : Src :=
+  a.withData (a.data.map fun v => if reversed then op.apply x v else op.apply v x)
+
 /-! ### the five reductions of the property text -/
 
 inductive Reduce where
@@ -491,10 +499,14 @@ def handleWin (isTo : Bool) (rest : List String) : Option String :=
   `c04.like <src> <reduce> <refsrc>`          values of empty windows are printed as `E`
   `c04.likepw <src> <reduce> <refsrc>`        the same with the proposed repair of the start index (F9)
   `c04.arith <op> <srcA> <srcB>`
+  `c04.byby <src> <reduce> <k1> <k2>`         `downsampled_by(k1)` then `downsampled_by(k2)`
   `c04.likewins <src> <refsrc>`              the windows handed to `reduce` by `downsampled_like` + isolated-growth flag
   `c04.getitem <src> <a> <b>`                `self[a:b]` as used inside the downsampling loops
   `c04.tof <src> <reduce> <where> <method> <frequency bits>`   `downsampled_to` from the frequency (double)
   `c04.step <frequency bits>`                `int(1e9 / frequency)`
+  `c04.neg <src>`                            `-a`
+  `c04.ariths <op> <0|1> <p/q> <src>`         `a <op> x` / (1:) `x <op> a` for a scalar
+  `c04.arith3 <op1> <op2> <srcA> <srcB> <srcC>`   `(a <op1> b) <op2> c`
   `c04.repair [d…]`                          the change-point repair alone
   where `<src>` is `cont <start> <dt> [v…]` or `ts [t…] [v…]` (values `p/q`). -/
 def handle : List String → Option String
@@ -548,6 +560,19 @@ def handle : List String → Option String
     match ← targetOfFreq fq with
     | .ok t => some ("ok " ++ toString t)
     | .error e => some (showErr e)
+  | "c04.byby" :: rest => do
+    let (s, rest) ← mkSrc? rest
+    match rest with
+    | [r, k1, k2] =>
+      let r ← reduce? r
+      let k1 ← nat? k1; let k2 ← nat? k2
+      match downBy r.apply s k1 with
+      | .error e => some (showErr e)
+      | .ok c1 =>
+        match downBy r.apply (.cont c1) k2 with
+        | .ok c => some ("ok " ++ toString c.dt ++ " " ++ showSamples c.samples)
+        | .error e => some (showErr e)
+    | _ => none
   | "c04.like" :: rest => handleLike false rest
   | "c04.likepw" :: rest => handleLike true rest
   | "c04.arith" :: o :: rest => do
@@ -558,6 +583,26 @@ def handle : List String → Option String
     else match arith o a b with
       | .ok r => some ("ok " ++ showSamples r.samples)
       | .error e => some (showErr e)
+  | "c04.neg" :: rest => do
+    let (a, rest) ← mkSrc? rest
+    if rest ≠ [] then none else some ("ok " ++ showSamples (neg a).samples)
+  | "c04.ariths" :: o :: rev :: x :: rest => do
+    let o ← op? o
+    let x ← rat? x
+    let rev ← (match rev with | "0" => some false | "1" => some true | _ => none)
+    let (a, rest) ← mkSrc? rest
+    if rest ≠ [] then none else some ("ok " ++ showSamples (arithScalar o a x rev).samples)
+  | "c04.arith3" :: o1 :: o2 :: rest => do
+    let o1 ← op? o1; let o2 ← op? o2
+    let (a, rest) ← mkSrc? rest
+    let (b, rest) ← mkSrc? rest
+    let (c, rest) ← mkSrc? rest
+    if rest ≠ [] then none
+    else match arith o1 a b with
+      | .error e => some (showErr e)
+      | .ok r => match arith o2 r c with
+        | .ok r => some ("ok " ++ showSamples r.samples)
+        | .error e => some (showErr e)
   | ["c04.repair", d] => do
     let d ← intList? d
     some (showIntList (repair d))
